@@ -82,6 +82,8 @@ pub enum Cmd {
     RrSend { peer: PeerId, payload: Vec<u8>, dial: bool },
     RrCancel { id: usize },
     /// how the responder treats incoming requests from now on (see `RrPolicy`)
+    /// the bitswap user sends this response to `peer`: (cid bytes, Some(block data) | None = presence, have)
+    BitswapRespond { peer: PeerId, entries: Vec<(Vec<u8>, Option<Vec<u8>>, bool)> },
     NotifOpen(PeerId),
     NotifClose(PeerId),
     NotifSendSync { peer: PeerId, data: Vec<u8> },
@@ -491,6 +493,7 @@ async fn node_main(
         // the ping protocol awaits its event channel: keep it drained
         tokio::spawn(async move { while events.next().await.is_some() {} });
     }
+    let (bs_cmd_tx, mut bs_cmd_rx) = mpsc::unbounded_channel::<(PeerId, Vec<(Vec<u8>, Option<Vec<u8>>, bool)>)>();
     if setup.bitswap {
         use litep2p::protocol::libp2p::bitswap::{BitswapEvent, BlockPresenceType, Config as BsConfig, ResponseType};
         let (cfg, mut handle) = BsConfig::new();
@@ -498,7 +501,26 @@ async fn node_main(
         // every request is answered: a block for CIDs hashing b"vh", don't-have for the rest
         let bs_log = log.clone();
         tokio::spawn(async move {
-            while let Some(ev) = handle.next().await {
+            loop {
+                let ev = tokio::select! {
+                    ev = handle.next() => match ev { Some(ev) => ev, None => break },
+                    cmd = bs_cmd_rx.recv() => {
+                        if let Some((peer, entries)) = cmd {
+                            let responses = entries
+                                .into_iter()
+                                .filter_map(|(cid, data, have)| {
+                                    let cid = cid::Cid::try_from(&cid[..]).ok()?;
+                                    Some(match data {
+                                        Some(block) => ResponseType::Block { cid, block },
+                                        None => ResponseType::Presence { cid, presence: if have { BlockPresenceType::Have } else { BlockPresenceType::DontHave } },
+                                    })
+                                })
+                                .collect();
+                            handle.send_response(peer, responses).await;
+                        }
+                        continue;
+                    }
+                };
                 if let BitswapEvent::Response { peer, responses } = &ev {
                     let mut blocks = Vec::new();
                     let mut presences = Vec::new();
@@ -677,6 +699,7 @@ async fn node_main(
                     Cmd::NotifReopenOnClosed(on) => notif_reopen_on_closed = on,
                     Cmd::NotifStall(d) => notif_stall_until = Some(Instant::now() + d),
                     Cmd::NotifThrottle(d) => notif_throttle = d,
+                    Cmd::BitswapRespond { peer, entries } => { let _ = bs_cmd_tx.send((peer, entries)); }
                     Cmd::Ping(tx) => { let _ = tx.send(()); }
                     Cmd::Freeze(d) => std::thread::sleep(d),
                     Cmd::Kad(k) => {
